@@ -172,6 +172,18 @@ CLAIMS = {
         "note": "Trusted: the theorem that the PCG recurrence gives the Krylov-optimal iterate; exact arithmetic (rounding not decided); "
                 "numpy vdot/real semantics. An algebraically different but equivalent recurrence would be reported (E3 equality is sound, incomplete).",
     },
+    "C16": {
+        "engine": "E4 symbolic Linop algebra + E3 value numbering",
+        "category": "other",
+        "technique": "static analysis: symbolic evaluation of the Sense factory on every path over {ishape, coord, weights, coil_batch_size} into operator terms compared with the documented composition; canonical-term comparison of the recon constructors' preamble and regulariser wiring",
+        "text": "PARTIAL. Decides that Sense builds sqrt(weights) * (FFT over the image axes | NUFFT(coord)) * Multiply(mps) with the weights outermost, that the batched variant is the Vstack along the "
+                "coil axis of Sense operators on consecutive coil slices (ceil(num_coils/batch) batches) forwarding coord, weights and ishape unchanged, that the three recon apps multiply the data by "
+                "the same sqrt(weights) they hand to the operator (estimated as the sampling mask when absent), forward coord/coil_batch_size/comm/transp_nufft, and wire (W, lamda) / (G, lamda) into "
+                "LinearLeastSquares consistently. Holds for all shapes, coil counts, batch sizes and data.",
+        "design_ref": "DESIGN.md section 4 C16",
+        "note": "NOT decided: that the recon output is the minimiser (inherits C14 routing and solver convergence). Restricted to tseg=None, comm=None, transp_nufft=False (the property's quantifier); "
+                "that batching drops tseg/transp_nufft is reported as INFO.",
+    },
 }
 
 NOT_APPLICABLE = {p: PENDING for p in ["C%02d" % i for i in range(1, 21)]}
